@@ -631,6 +631,10 @@ func tryReplay(w *World, x *Result) (bool, map[string]any) {
 			return false, detail
 		}
 	}
+	if x.havoc {
+		detail["status"] = "not confirmed: the real function returns the counterexample's result, but the counterexample depends on calls without a contract (havoc), so the coincidence proves nothing"
+		return false, detail
+	}
 	detail["status"] = "confirmed: the real function returns exactly the result of the counterexample, for which the clause is false"
 	return true, detail
 }
